@@ -50,7 +50,9 @@ def _mk_message(MSG, m):
         fields[6] = m['destination']
     fields[7] = ':1.9'
     raw = R.encode_message(t, 77, fields, m['sig'], m['trees'], little=m.get('little', True))
-    return MSG.parseMessage(raw, [])
+    msg = MSG.parseMessage(raw, [])
+    msg.rawMessage = raw      # what a connection forwarding this message would write
+    return msg
 
 
 def _abstract_for_oracle(m):
@@ -464,41 +466,32 @@ def classify_proxy(case):
 # the rule text understood by the built-in bus
 
 def run_busrule(case):
-    from txdbus import bus as B
     from txdbus import message as MSG
     out = []
     try:
-        bus = B.Bus()
-
-        class _Cli:
-            uniqueName = ':1.77'
-
-            def __init__(self):
-                self.got = []
-
-            def sendMessage(self, m):
-                self.got.append(m)
-        cli = _Cli()
-        bus.clients[cli.uniqueName] = cli
+        rig = N.BusRig()
+        cli = rig.attach()
         r = case['rules'][0]
         want = _expected_text_constraints(r)
         text = ','.join("%s='%s'" % (k, v) for k, v in want.items())
-        try:
-            bus.dbus_AddMatch(text, dbusCaller=cli.uniqueName)
-        except Exception as e:
-            return [Disc(exc_key(e, 'busrule.addmatch-raises'), 'rule %r: %s' % (text, exc_detail(e)))]
+        rep = cli.call_bus('AddMatch', 's', [text])
+        if rep is None or rep['type'] != 2:
+            return [Disc('busrule.addmatch-refused', 'rule %r: %r' % (text, rep and (rep['fields'].get(4), rep['body'])))]
         for m in case['msgs']:
             msg = _mk_message(MSG, m)
-            del cli.got[:]
-            bus.router.routeMessage(msg)
+            cli.inbox[:] = []
+            rig.bus.router.routeMessage(msg)
+            got = cli.pump()
             ab = _abstract_for_oracle(m)
             wantn = 1 if R.rule_matches(_rule_for_oracle(r), ab) else 0
-            if len(cli.got) != wantn:
+            if len(got) != wantn:
                 nm = _near_miss_key(r, ab)
                 out.append(Disc('busrule.%s:%s' % ('missed' if wantn else 'spurious',
                                                    nm if nm else ('several' if nm is False else 'match')),
-                                'rule text %r message %r: delivered %d times, expected %d' % (text, ab, len(cli.got), wantn)))
+                                'rule text %r message %r: delivered %d times, expected %d' % (text, ab, len(got), wantn)))
                 break
+    except N.RigFailure as e:
+        out.append(Disc('busrule.attach-failed', str(e)))
     except Exception as e:
         out.append(Disc(exc_key(e, 'busrule.exception'), exc_detail(e)))
     return out
